@@ -87,7 +87,16 @@ def _mk(name):
         finally:
             self._depth -= 1
         if self._depth == 0:
-            self.log.append(Request(name, _bind(name, a, k), out, (a, k)))
+            bound = _bind(name, a, k)
+            if name == 'normal' and getattr(self, 'adversarial', True) and isinstance(out, np.ndarray) and out.size and bound:
+                # the random source is an ENVIRONMENT the harness owns: it answers with a legitimate but rare deep-tail
+                # value in the first slot (6 deviations below the mean), so that whatever the library promises for every
+                # draw (e.g. "never below the floor") is exercised on small frames too
+                try:
+                    out.flat[0] = float(bound['loc']) - 6.0 * abs(float(bound['scale']))
+                except (TypeError, ValueError):
+                    pass
+            self.log.append(Request(name, bound, out, (a, k)))
         return out
     f.__name__ = name
     return f
